@@ -67,6 +67,7 @@ type Ctx struct {
 	typeTags   map[string]int
 
 	trusted map[string]bool // trusted-base items used
+	usedFieldInv map[*FieldInv]bool
 	notes   []string
 }
 
@@ -75,6 +76,8 @@ type heapInfo struct {
 	elem Sort
 	ty   types.Type // element go type (for wf axioms)
 	two  bool       // two-level (ref -> idx -> elem)
+	owner types.Type // struct type for field heaps
+	field int
 }
 
 var _ = sort.Strings
@@ -83,7 +86,7 @@ func newCtx(w *World, fn string, mode ArithMode) *Ctx {
 	c := &Ctx{W: w, Mode: mode, FuncName: fn,
 		declKeys: map[string]bool{}, oblCount: map[string]int{}, structs: map[string]string{},
 		strLits: map[string]string{}, specDone: map[string]bool{}, heapSorts: map[string]heapInfo{},
-		typeTags: map[string]int{}, trusted: map[string]bool{}}
+		typeTags: map[string]int{}, trusted: map[string]bool{}, usedFieldInv: map[*FieldInv]bool{}}
 	c.prelude()
 	return c
 }
@@ -583,7 +586,7 @@ func (c *Ctx) keyField(t types.Type, i int) string {
 	st := t.Underlying().(*types.Struct)
 	ft := st.Field(i).Type()
 	fs := c.sortOf(ft)
-	return c.regHeap(fmt.Sprintf("F:%s#%d.%s", typeKey(t), i, st.Field(i).Name()), heapInfo{sort: ArraySort(SRef, fs), elem: fs, ty: ft})
+	return c.regHeap(fmt.Sprintf("F:%s#%d.%s", typeKey(t), i, st.Field(i).Name()), heapInfo{sort: ArraySort(SRef, fs), elem: fs, ty: ft, owner: t, field: i})
 }
 
 func (c *Ctx) keyElem(et types.Type) string {
@@ -637,8 +640,15 @@ func (c *Ctx) heapWF(h Term, info heapInfo) {
 		sel = fmt.Sprintf("(select (select %s r) i)", h.S)
 		bind = fmt.Sprintf("((r Int) (i %s))", c.idxSort())
 	}
+	if info.owner != nil && c.Mode == ArithInt && c.W != nil {
+		if fi := c.W.fieldInvFor(info.owner, info.field); fi != nil {
+			c.decl("wfinv:"+h.S, fmt.Sprintf("(assert (forall ((r Int)) (! (and (<= %s (select %s r)) (<= (select %s r) %s)) :pattern ((select %s r)))))", fi.Lo, h.S, h.S, fi.Hi, h.S))
+			c.note("field invariant %s.%s in [%s, %s] used (proved at every store by the fieldinv obligations)", fi.Type, fi.Field, fi.Lo, fi.Hi)
+			c.usedFieldInv[fi] = true
+		}
+	}
 	if isInteger(info.ty) && c.Mode == ArithInt {
-		c.decl("wf:"+h.S, fmt.Sprintf("(assert (forall %s (! %s :pattern (%s))))", bind, c.inRange(Term{sel, SInt}, info.ty).S, sel))
+		c.decl("wf:"+h.S,fmt.Sprintf("(assert (forall %s (! %s :pattern (%s))))", bind, c.inRange(Term{sel, SInt}, info.ty).S, sel))
 	}
 	if _, ok := info.ty.Underlying().(*types.Slice); ok {
 		c.decl("wf:"+h.S, fmt.Sprintf("(assert (forall %s (! %s :pattern (%s))))", bind, c.sliceWF(Term{sel, SSl}).S, sel))
